@@ -38,6 +38,7 @@ type Split struct {
 	Var    string
 	Lo, Hi int
 	Table  string // split a struct parameter over the rows of a package-level table
+	Expr   *Expr  // split over the value of an expression of the parameters
 }
 
 type Contract struct {
@@ -404,6 +405,17 @@ func (cs *ContractSet) loadFile(path string) error {
 				// split v in lo..hi
 				var v string
 				var lo, hi int
+				if i := strings.LastIndex(rest, " in "); i > 0 && !strings.Contains(rest, " table ") && strings.ContainsAny(rest[:i], "%/+-*(") {
+					ex, err := parseSpec(rest[:i])
+					if err != nil {
+						return fmt.Errorf("%s: %v", where, err)
+					}
+					if _, err := fmt.Sscanf(strings.ReplaceAll(rest[i+4:], "..", " "), "%d %d", &lo, &hi); err != nil {
+						return fmt.Errorf("%s: split <expr> in lo..hi: %v", where, err)
+					}
+					cur.Splits = append(cur.Splits, Split{Var: rest[:i], Lo: lo, Hi: hi, Expr: ex})
+					continue
+				}
 				if fs := strings.Fields(rest); len(fs) == 4 && fs[1] == "in" && fs[2] == "table" {
 					cur.Splits = append(cur.Splits, Split{Var: fs[0], Table: fs[3]})
 					continue
